@@ -198,4 +198,23 @@ CHECKS = {
              "of the field tree); that distinct complete assignments never "
              "match each other; exactness of the log2-based automatic "
              "length above 2**48. Assumes field lengths >= 1."),
+    "C12": dict(
+        technique="bit-provenance analysis of the region word (sibling "
+                  "agreement), constant folding over the four hierarchy "
+                  "levels, symbolic normal forms of the index formula, "
+                  "dominance facts on the collapse logic",
+        text="Both producers of region words use x block<<24 | y block<<16 | "
+             "level<<16 | select bits; per level the mask clears exactly the "
+             "bits below the block size and scale/4 == 1<<shift (R1). "
+             "add_core and get_region_for_chip share one sub-block index "
+             "normal form, and a child's base inverts it (R2). A node "
+             "collapses exactly at 0xffff and never at the root, clears "
+             "itself, the parent sets that child's bit iff it reported "
+             "full, selected sub-blocks are not re-entered, sub-trees are "
+             "only created never discarded, the traversal's child indices "
+             "fold to all of 0..15 (R3). Result sorted by (region, mask); "
+             "core range 0..17 matches the 18-entry array (R4).",
+        note="Not decided: exactness of the cover for every subset (an "
+             "induction over the tree); the rules are its per-step necessary "
+             "conditions. Trusted: the region word layout as documented."),
 }
